@@ -3,6 +3,7 @@ package main
 // `govc check` / `govc claim`: property-level driver, claimed-set bookkeeping, evidence, violation reporting.
 
 import (
+	"os/exec"
 	"encoding/json"
 	"flag"
 	"fmt"
@@ -106,6 +107,19 @@ func clauseServes(eng *Engine, o *Obligation, fr *funcResult, prop string) bool 
 		}
 	}
 	if o.Kind == "assert" {
+		if i := strings.LastIndex(o.Clause, "/atcut"); i >= 0 {
+			n, _ := strconv.Atoi(o.Clause[i+6:])
+			if n >= 1 && n <= len(ct.AtCuts) {
+				if tags := ct.AtCuts[n-1].Tags; len(tags) > 0 {
+					for _, t := range tags {
+						if t == prop {
+							return true
+						}
+					}
+					return false
+				}
+			}
+		}
 		// Func/before:Callee[#n]/assertK
 		if i := strings.Index(o.Clause, "/before:"); i >= 0 {
 			rest := o.Clause[i+8:]
@@ -164,6 +178,13 @@ func functionsServing(eng *Engine, prop string) []string {
 			}
 		}
 		for _, en := range ct.Exits {
+			for _, t := range en.Tags {
+				if t == prop {
+					ok = true
+				}
+			}
+		}
+		for _, en := range ct.AtCuts {
 			for _, t := range en.Tags {
 				if t == prop {
 					ok = true
@@ -358,12 +379,38 @@ func cmdClaim(args []string) {
 			}
 		}
 		sort.Strings(cl)
+		for _, name := range pr.order {
+			cs := pr.clauses[name]
+			if cs.Kind == "postcondition" && strings.Contains(name, "/ensures") {
+				if cs.Discharged == cs.Instances {
+					provedPost[name] = true
+				} else {
+					unprovedPost[name] = true
+				}
+			}
+		}
 		cf := claimFile{Property: p, Clauses: cl, Note: "clauses discharged on the unchanged tree; regenerated only by `govc claim` (never at check time)"}
 		b, _ := json.MarshalIndent(cf, "", " ")
 		os.WriteFile(filepath.Join(verifRoot, "claims", p+".json"), b, 0o644)
 		fmt.Printf("%s: %d clauses claimed, %d not claimed, %.1fs\n", p, len(cl), nskip, pr.wall)
 	}
+	if *prop == "all" && len(onlySet) == 0 {
+		// post-conditions that no property run discharged: they are still assumed at the call sites of their functions
+		var up []string
+		for n := range unprovedPost {
+			if !provedPost[n] {
+				up = append(up, n)
+			}
+		}
+		sort.Strings(up)
+		b, _ := json.MarshalIndent(map[string]any{"note": "post-condition clauses of verified (non-trusted) contracts that were generated but not discharged on the unchanged tree; callers assume them", "clauses": up}, "", " ")
+		os.WriteFile(filepath.Join(verifRoot, "claims", "_unproved_postconditions.json"), b, 0o644)
+		fmt.Printf("unproved post-conditions: %d\n", len(up))
+	}
 }
+
+var provedPost = map[string]bool{}
+var unprovedPost = map[string]bool{}
 
 func worstResult(cs *clauseStatus) string {
 	if cs.Worst == nil {
@@ -397,6 +444,8 @@ func allProps(eng *Engine) []string {
 	sort.Strings(out)
 	return out
 }
+
+var sumLemmaStatus string
 
 func cmdCheck(args []string) {
 	fs := flag.NewFlagSet("check", flag.ExitOnError)
@@ -437,7 +486,7 @@ func cmdCheck(args []string) {
 	}
 	dir := mkScratch()
 	defer os.RemoveAll(dir)
-	opts := solveOpts{dir: dir, quickT: 10, slowT: 40, workers: 16}
+	opts := solveOpts{dir: dir, quickT: 4, slowT: 40, workers: 16}
 	if *tier == "thorough" {
 		opts.slowT = 60
 		opts.both = true
@@ -455,6 +504,14 @@ func cmdCheck(args []string) {
 		if k.Property == *prop {
 			only[k.Clause] = true
 		}
+	}
+	// the prefix-sum axioms the VCs rely on are themselves proved by induction on every run
+	if out, err := exec.Command(filepath.Join(verifRoot, "lemmas", "run.sh")).CombinedOutput(); err != nil {
+		os.RemoveAll(dir)
+		fail("prefix-sum lemmas not proved: " + strings.TrimSpace(string(out)))
+	} else {
+		lines := strings.Split(strings.TrimSpace(string(out)), "\n")
+		sumLemmaStatus = lines[len(lines)-1]
 	}
 	pr := runPropertyFiltered(eng, *prop, opts, only)
 	nObl, nDis := 0, 0
@@ -503,6 +560,7 @@ func cmdCheck(args []string) {
 	writeEvidence(evPath, *prop, *tier, seed, pr, claims, nObl, nDis, violations, time.Since(t0).Seconds(), eng)
 	fmt.Printf("govc check %s (%s): %d claimed clauses, %d/%d obligations discharged, %d violation(s), %.1fs\n", *prop, *tier, len(claims.Clauses), nDis, nObl, violations, time.Since(t0).Seconds())
 	if violations > 0 {
+		os.RemoveAll(dir)
 		os.Exit(1)
 	}
 }
@@ -618,10 +676,41 @@ func writeEvidence(path, prop, tier string, seed int, pr *propRun, claims *claim
 		for _, a := range keysOf(assumedSet) {
 			trusted = append(trusted, "assumed contract: "+a)
 		}
+		// post-conditions of called (verified) contracts that are not discharged anywhere: assumed at those call sites
+		if b, err := os.ReadFile(filepath.Join(verifRoot, "claims", "_unproved_postconditions.json")); err == nil {
+			var up struct{ Clauses []string }
+			if json.Unmarshal(b, &up) == nil {
+				called := map[string]bool{}
+				for _, fr := range pr.funcs {
+					for _, c := range fr.Called {
+						called[c] = true
+					}
+				}
+				for _, c := range up.Clauses {
+					fn := c
+					if i := strings.Index(c, "/"); i >= 0 {
+						fn = c[:i]
+					}
+					if called[fn] {
+						trusted = append(trusted, "post-condition assumed at call sites but not discharged: "+c)
+					} else if j := strings.Index(fn, "@impl:"); j >= 0 {
+						// conformance view T.m@impl:I of the interface contract I.m
+						if d := strings.LastIndex(fn[:j], "."); d >= 0 {
+							if called[fn[j+6:]+"."+fn[d+1:j]] {
+								trusted = append(trusted, "interface contract assumed at call sites, not discharged for this implementer: "+c)
+							}
+						}
+					}
+				}
+			}
+		}
 		assumptions = append(assumptions, keysOf(asmSet)...)
 	}
 	assumptions = append(assumptions, standingAssumptions(prop)...)
 	cov["trusted_base"] = trusted
+	if sumLemmaStatus != "" {
+		cov["prefix_sum_axioms"] = sumLemmaStatus + " (base and step VCs of every prefix-sum axiom and of every ground sum fact the engine emits; /verif/lemmas/gen.py)"
+	}
 	ev := map[string]any{
 		"property_id": prop, "tier": tier, "seed": seed, "level": "proof",
 		"coverage": cov, "assumptions": assumptions, "wall_s": round2(wall), "violations": violations,
